@@ -144,6 +144,28 @@ class Ctx:
         if case is not None and len(self.inconclusive_samples) < 5:
             self.inconclusive_samples.append({"reason": reason, "case": plain(case)})
 
+    def merge(self, d):
+        """Fold the dump() of a child context (a history played in a forked process) into this one."""
+        self.counters.update(d.get("counters", {}))
+        for h in d.get("distinct", []):
+            if len(self.distinct) < self.MAX_DISTINCT:
+                self.distinct.add(h)
+        for cls, lst in d.get("samples", {}).items():
+            cur = self.samples.setdefault(cls, [])
+            for s_ in lst:
+                if len(cur) < self.MAX_SAMPLES_PER_CLASS:
+                    cur.append(s_)
+        for key, n in d.get("viol_classes", {}).items():
+            a, k, f = key.split("|")
+            self.viol_classes[(a, k, f)] += n
+        for v in d.get("violations", []):
+            if sum(1 for x in self.violations if (x["alg"], x["kind"], x.get("known_finding")) == (v["alg"], v["kind"], v.get("known_finding"))) < self.MAX_VIOL_PER_CLASS:
+                self.violations.append(v)
+        self.inconclusive.update(d.get("inconclusive", {}))
+        self.inconclusive_samples.extend(d.get("inconclusive_samples", [])[: max(0, 5 - len(self.inconclusive_samples))])
+        self.reach.update(d.get("reach", {}))
+        self.warnings_seen.update(d.get("warnings_seen", {}))
+
     def dump(self):
         return {
             "spec": self.spec,
